@@ -24,6 +24,10 @@ def run(check):
     check.run_rule('C06.R2', lambda c: rule_translation(c, {'translate': 'C06.R2', 'fallback': 'C06.R3'}))
     check.run_rule('C06.R3', lambda c: rule_fallback_discipline(c, 'C06.R3'))
     check.run_rule('C06.R4', lambda c: rule_hint_protocol(c, 'C06.R4'))
+    from ..rules_discovery import rule_get_ast_duck_typed
+    check.run_rule('C06.R4b', lambda c: rule_get_ast_duck_typed(c, 'C06.R4'))
+    from ..rules_visitor import rule_resolution_order
+    check.run_rule('C06.R8', lambda c: rule_resolution_order(c, 'C06.R8'))
     check.run_rule('C06.R5', lambda c: rule_partial_discovery(c, 'C06.R5'))
     # extraction: every forwarding call is found (deferred nested calls included) and its star arguments classified
     check.run_rule('C06.R6', lambda c: rule_invalidation_tables(c, 'C06.R6', precision_rule='C06.R6'))
